@@ -308,55 +308,72 @@ def defaultMatches (defs : Option Tree) (k : Key) (oldv : Tree) : Except Err Boo
       | .opaque _ => .ok false          -- `k in [..]` on a list of non-matching items
       | _ => .error .typeError          -- `k in 5`
 
+/-- `dk = canonical_name(k, defaults) if defaults else k`: the spelling under which the
+defaults hold the key (for a non-mapping `defaults` Python's `in` is a substring test on
+strings, `False` on lists, and a `TypeError` — caught by `canonical_name` — on numbers) -/
+def defaultsKey (defs : Option Tree) (k : Key) : Key :=
+  match defs with
+  | .none => k
+  | some (.node kvs) => if kvs.isEmpty then k else canonicalName k kvs
+  | some (.leaf a) =>
+      if !atomTruthy a then k else
+      match a with
+      | .str s =>
+          if containsSub s (String.ofList k) then k
+          else if containsSub s (String.ofList (altKey k)) then altKey k else k
+      | _ => k
+
 /-- the leaf branch of `update`:
-`if priority == "new" or k not in old or (priority == "new-defaults" and defaults and k in
-defaults and defaults[k] == old[k]): old[k] = v` -/
-def updateLeaf (prio : Priority) (old : Dict) (defs : Option Tree) (k : Key) (v : Tree) :
+`if priority == "new" or k not in old or (priority == "new-defaults" and defaults and dk in
+defaults and defaults[dk] == old[k]): old[k] = v` -/
+def updateLeaf (prio : Priority) (old : Dict) (defs : Option Tree) (k dk : Key) (v : Tree) :
     Except Err Dict :=
   match dget old k with
   | .none => .ok (dset old k v)
   | some oldv =>
       if prio = .new then .ok (dset old k v)
       else if prio = .newDefaults then do
-        let m ← defaultMatches defs k oldv
+        let m ← defaultMatches defs dk oldv
         if m then .ok (dset old k v) else .ok old
       else .ok old
 
-/-- `update(old, new, priority, defaults)` over the items of `new`, with Python's in-place
-semantics: the dictionary as mutated so far is returned together with the exception (if
-any) that stopped the loop. -/
-def updateP (env : Env) (prio : Priority) (old : Dict) (defs : Option Tree) :
+/-- `update(old, new, priority, defaults, _nested)` over the items of `new`, with Python's
+in-place semantics: the dictionary as mutated so far is returned together with the exception
+(if any) that stopped the loop.  `check_key_val` is applied to top-level keys only
+(`nested = false`); the recursive calls pass `_nested=True`. -/
+def updateP (env : Env) (prio : Priority) (nested : Bool) (old : Dict) (defs : Option Tree) :
     List (Key × Tree) → Dict × Option Err
   | [] => (old, .none)
   | (k0, .node sub) :: rest =>
-      -- check_key_val: a mapping under the key "device" is not a device
-      if k0 = "device".toList then (old, some .typeError) else
+      -- check_key_val: a mapping under the top-level key "device" is not a device
+      if !nested && k0 = "device".toList then (old, some .typeError) else
       let k := canonicalName k0 old
+      let dk := defaultsKey defs k
       -- `if k not in old or old[k] is None or not isinstance(old[k], dict): old[k] = {}`
       let (old1, cur) := match dget old k with
         | some (.node cur) => (old, cur)
         | _ => (dset old k (.node []), [])
-      match defaultsGet defs k with     -- `defaults.get(k) if defaults else None`
+      match defaultsGet defs dk with     -- `defaults.get(dk) if defaults else None`
       | .error e => (old1, some e)
       | .ok sd =>
-          let r := updateP env prio cur sd sub
+          let r := updateP env prio true cur sd sub
           let old2 := dset old1 k (.node r.1)
           match r.2 with
           | some e => (old2, some e)
-          | .none => updateP env prio old2 defs rest
+          | .none => updateP env prio nested old2 defs rest
   | (k0, .leaf a) :: rest =>
-      match checkKeyVal env k0 (.leaf a) with
+      match (if nested then .ok (.leaf a) else checkKeyVal env k0 (.leaf a)) with
       | .error e => (old, some e)
       | .ok v =>
           let k := canonicalName k0 old
-          match updateLeaf prio old defs k v with
+          match updateLeaf prio old defs k (defaultsKey defs k) v with
           | .error e => (old, some e)
-          | .ok old' => updateP env prio old' defs rest
+          | .ok old' => updateP env prio nested old' defs rest
 
 /-- `update` as a function: the result when no exception was raised -/
 def update (env : Env) (prio : Priority) (old : Dict) (defs : Option Tree) (new : List (Key × Tree)) :
     Except Err Dict :=
-  match updateP env prio old defs new with
+  match updateP env prio false old defs new with
   | (d, .none) => .ok d
   | (_, some e) => .error e
 
@@ -401,7 +418,7 @@ def refreshP (env : Env) (s : State) : State × Option Err :=
   let rec go (cfg : Dict) : List Dict → Dict × Option Err
     | [] => (cfg, .none)
     | d :: rest =>
-        match updateP env .new cfg .none d with
+        match updateP env .new false cfg .none d with
         | (cfg', .none) => go cfg' rest
         | (cfg', some e) => (cfg', some e)
   let r := go [] s.defaults
@@ -416,7 +433,7 @@ def updateDefaultsP (env : Env) (s : State) (new : Dict) : State × Option Err :
       match merge env s.defaults with
       | .error e => (s, some e)
       | .ok cur =>
-          let r := updateP env .newDefaults s.config (some (.node cur)) new'
+          let r := updateP env .newDefaults false s.config (some (.node cur)) new'
           ({ config := r.1, defaults := s.defaults ++ [new'] }, r.2)
 
 end QuantemModel.Config
